@@ -7,7 +7,7 @@ From Centro Require Import Base.Sx Base.EmdBase Spec.Emd Model.Emd Model.EmdCert
   Proofs.EmdMcfCert Proofs.EmdHeapMem Proofs.EmdDijkstra Proofs.EmdDijkstraInit
   Proofs.EmdTight Proofs.EmdGhost Proofs.EmdCspPost Proofs.EmdPairAddr Proofs.EmdGraphShape Proofs.EmdAugment Proofs.EmdRun Proofs.EmdConserve Proofs.EmdConserveRun Proofs.EmdIndex Proofs.EmdOptimal Proofs.EmdWrap.
 From Centro Require Import Model.EmdAsIs Model.EmdW Proofs.EmdWrap2 Model.EmdP Proofs.EmdNoWrap.
-From Centro Require Import Model.EmdMcf.
+From Centro Require Import Model.EmdMcf Proofs.EmdProgLL Proofs.EmdEndToEnd.
 Import ListNotations.
 Open Scope Z_scope.
 
@@ -670,3 +670,56 @@ Theorem C10_no_wrap_below_bound : forall p q c pen ft gd,
   emd_int32_as_written p q c pen ft gd = emd_int32_exact p q c pen ft gd.
 Proof. exact no_wrap_below_bound. Qed.
 Print Assumptions C10_no_wrap_below_bound.
+
+(* ------------------------------------------------------------------------------------------------
+   Round 15.  C10_prog_equals_ll — the exact run (w = identity) of the program model of Model/EmdP.v
+   (the model that is compared with the int32 code, variant by variant) IS the line-level model of
+   Model/EmdMcf.v the optimality theorems are about: whenever it finishes (status 0) the line-level
+   model returns exactly its distance and flow.  Proved function by function (Proofs/EmdProgLL.v:
+   relax / heap / Dijkstra / potential update / augment / mcf_step / mcf_iter / reduce / read_back /
+   transform_flow_to_regular / pre-flow / padding). *)
+Theorem C10_prog_equals_ll : forall p q c pen ft gd d F,
+  emd_int32_exact p q c pen ft gd = (0, d, F) -> emd_hat_int32_ll p q c pen ft gd = Some (d, F).
+Proof. exact prog_equals_ll. Qed.
+Print Assumptions C10_prog_equals_ll.
+
+(* the chain composed at the SOLVER level, no open premise: below the bound (okp, the per-case
+   boolean) what min_cost_flow.hpp as written for int returns is the Done state of the line-level
+   run, and with the companion flag clear (evaluated per case) the capacity flow of that state is a
+   MINIMUM-COST flow of the graph the solver was given. *)
+Theorem C10_mcf_int32_optimal_below_bound : forall e c md x,
+  okp (min_cost_flow_p e c) = true ->
+  run wrap32 (min_cost_flow_p e c) = (0, md, x) ->
+  length c = length e ->
+  (forall l tc, In l c -> In tc l -> (fst tc < length e)%nat /\ 0 <= snd tc) ->
+  zsum e = 0 ->
+  forall r fl, mcf_iter_f ssp_levels (mcf_init e c) false = (r, fl) -> fl = false ->
+  exists st, r = MDone st /\ x = m_x st /\ md = x_dist (m_x st) /\
+    let sk := sk_of c in
+    let f := capflow c (m_rb st) in
+    (forall k, In k (idx sk) -> 0 <= f k) /\
+    (forall v, (v < length e)%nat -> gout sk f v = nz e v) /\
+    forall g, (forall k, In k (idx sk) -> 0 <= g k) -> (forall v, (v < length e)%nat -> gout sk g v = nz e v) ->
+              gcost sk f <= gcost sk g.
+Proof. exact mcf_int32_optimal_below_bound. Qed.
+Print Assumptions C10_mcf_int32_optimal_below_bound.
+
+(* C10_emd_int32_correct_below_bound — PARTIAL, end to end.  FULL statement aimed at: below the bound,
+   a finished run of emd_hat_gd_metric / emd_hat as written for int32 returns the earth mover's distance.
+   PROVED: under no_wrap_b (decidable, evaluated per case and variant) the as-written run returns
+   exactly the distance and flow of the flagged line-level model (as written = exact program
+   = line-level model), so any statement about the line-level answer is a statement about the int32 code.
+   REMAINING PREMISES, exactly: (i) flag clear — the answer of the flagged model carries false
+   (evaluated per case: never set below the bound; artificial_node_unused would discharge it);
+   (ii) read_back_bookkeeping (with x_caps_consistent): from the flag-clear line-level answer — whose
+   capacity flow is a minimum-cost flow by C10_mcf_int32_optimal_below_bound — to emd_spec; OPEN,
+   a premise on the instance.  mcf_no_fail_if_flag_clear is not needed here: the run is assumed finished. *)
+Theorem C10_emd_int32_correct_below_bound_partial : forall p q c pen ft gd d F,
+  no_wrap_b p q c pen ft gd = true ->
+  emd_int32_as_written p q c pen ft gd = (0, d, F) ->
+  (exists fl, emd_hat_int32_llf p q c pen ft gd = Some (d, F, fl)) /\
+  forall d' F', emd_hat_int32_llf p q c pen ft gd = Some (d', F', false) ->
+    (emd_hat_int32_llf p q c pen ft gd = Some (d', F', false) -> emd_spec p q c (penalty_of c pen) d') ->
+    d' = d /\ F' = F /\ emd_spec p q c (penalty_of c pen) d.
+Proof. exact emd_int32_correct_below_bound_partial. Qed.
+Print Assumptions C10_emd_int32_correct_below_bound_partial.
